@@ -976,6 +976,11 @@ impl DiskIO {
         let block = metadata_block(&encoded)?;
         self.write_sectors_sync(FEOX_METADATA_BLOCK, &block)?;
         self.write_sectors_sync(FEOX_METADATA_BACKUP_BLOCK, &block)?;
+        // The signature has to be durable before anything else can reach the
+        // device: a crash that kept the first journal write but lost both
+        // metadata copies leaves a non-zero file without a signature, which
+        // can no longer be opened.
+        self.flush()?;
         *metadata = next;
         Ok(())
     }
